@@ -7,6 +7,7 @@ package gohlslib
 // rotation) must still satisfy the single-playlist invariants.
 
 import (
+	"sync"
 	"sync/atomic"
 	"time"
 
@@ -26,17 +27,53 @@ func VerifH_C08_view() {
 	}
 	var resp *verifRW
 	var done atomic.Bool
-	if !verifSymbolic() {
-		// native replay: widen the window in which the request runs, at every scheduling point of the rotation
-		verifHookFn = func(p string) { time.Sleep(20 * time.Millisecond) }
+	if verifSymbolic() {
+		go func() {
+			resp = verifGet(m, sid+"_stream.m3u8")
+			done.Store(true)
+		}()
+		wr.writeIDR(int64(90000 * (1 + 2*verifChoice("racestep", 2)))) // rotation (possibly with a longer segment: target duration grows), racing the request
+		verifQuiesce()
+	} else {
+		// native replay: force "request is about to generate the playlist while the writer is in the middle of
+		// the rotation". The request is parked at the entry of the stream's playlist generator; the writer is
+		// parked at the scheduling point inside rotateSegments. In a correct muxer the generator runs under the
+		// muxer lock, so the writer cannot get there and the wait below simply times out.
+		st := m.streams[0]
+		orig := st.generateMediaPlaylist
+		atGen := make(chan struct{})
+		release := make(chan struct{})
+		var once sync.Once
+		st.generateMediaPlaylist = func(isDeltaUpdate bool, rawQuery string) ([]byte, error) {
+			once.Do(func() { close(atGen); <-release })
+			return orig(isDeltaUpdate, rawQuery)
+		}
+		midRotation := make(chan struct{})
+		var onceW sync.Once
+		verifHookFn = func(p string) {
+			if p == "rotateSegments:appended" {
+				onceW.Do(func() { close(midRotation); time.Sleep(200 * time.Millisecond) })
+			}
+		}
 		defer func() { verifHookFn = nil }()
+		reqDone := make(chan struct{})
+		go func() {
+			resp = verifGet(m, sid+"_stream.m3u8")
+			done.Store(true)
+			close(reqDone)
+		}()
+		<-atGen
+		racestep := verifChoice("racestep", 2)
+		wDone := make(chan struct{})
+		go func() { wr.writeIDR(int64(90000 * (1 + 2*racestep))); close(wDone) }()
+		select {
+		case <-midRotation:
+		case <-time.After(300 * time.Millisecond):
+		}
+		close(release)
+		<-reqDone
+		<-wDone
 	}
-	go func() {
-		resp = verifGet(m, sid+"_stream.m3u8")
-		done.Store(true)
-	}()
-	wr.writeIDR(int64(90000 * (1 + 2*verifChoice("racestep", 2)))) // rotation (possibly with a longer segment: target duration grows), racing the request
-	verifQuiesce()
 	verifReach("raced")
 	verifAssert("C08", "request-completes", done.Load())
 	if !done.Load() || resp.code != 200 {
